@@ -190,6 +190,15 @@ def obligations(tier):
         obs.append(Obligation(f"name-scheme-{'-'.join(seq)}", h_name_scheme, dict(seq=seq), group="name-scheme", time_cap=1500, max_paths=200000))
     for focus in (["serial"], ["res_seq", "ins"], ["x", "y"], ["z", "charge"], ["name", "res_name"]):
         obs.append(Obligation(f"chain-column-{'+'.join(focus)}", h_chain_column, dict(focus=focus), group="chain-column", time_cap=1200))
+    # --whitespace changes spacing only: the real print_pqr writes one line per atom for every serial / record type (C08's harness)
+    for rtype in ("ATOM", "HETATM"):
+        obs.append(Obligation(f"whitespace-keeps-lines-{rtype}", c08.h_roundtrip, dict(focus=["serial"], rtype=rtype, ws=True, kc=False, serial_max=99999), group="roundtrip", time_cap=1200))
+    # --drop-water equals deleting the water records (C07's record harness, with waters in HETATM and in ATOM records)
+    from . import c07
+
+    wk = ["water-in-atom-record", "hetatm-water", "hetatm-water-serial-10000", "atom-new-residue", "hetatm-ligand", "TER"]
+    for k in range(len(wk)):
+        obs.append(Obligation(f"drop-water-first={wk[k]}", c07.h_records, dict(nlines=3, kinds=wk, models="plain", drop=True, first=k), group="records", time_cap=1500, max_paths=100000))
     res = ["ALA", "GLY", "PRO", "LYS"] if tier == "quick" else ["ALA", "ARG", "ASP", "CYS", "GLU", "GLY", "HIS", "LYS", "PRO", "SER", "TYR"]
     for s in STRUCTS:
         obs.append(Obligation(f"neutral-termini-{s}", table_neutral, dict(residues=res if s == "tripeptide" else res[:2], structs=[s]), kind="table", group="neutral-termini"))
@@ -216,7 +225,7 @@ META = dict(
     ],
     outside=[
         "byte-identity across real end-to-end runs (needs determinism, C11); the claim is that no code path lets a formatting option influence a model-affecting call",
-        "--drop-water equivalence is checked in C07 (record-level harness)",
+        "(--drop-water equivalence uses C07's record-level harness, registered here as well)",
     ],
     assumptions=["stage stubs are deterministic functions of their arguments"],
     technique="2-run self-composition of the real driver on symbolic options (symx) + SMT verdict per path; layout strings for the chain column; table lemma for neutral termini",
